@@ -155,6 +155,17 @@ def _minimal(kind, v, dialect, optname):
                 cur = cand
                 changed = True
                 break
+        if not changed and len(cur) > 2:
+            # e.g. an odd run of escape characters: dropping one of them makes the value pass, dropping two does not
+            for i in range(len(cur)):
+                for j in range(i + 1, len(cur)):
+                    cand = cur[:i] + cur[i + 1 : j] + cur[j + 1 :]
+                    if cand and _fails(kind, cand, dialect, optname):
+                        cur = cand
+                        changed = True
+                        break
+                if changed:
+                    break
     return "+".join(_charname(c) for c in cur)
 
 
@@ -252,7 +263,7 @@ def run(ctx):
         if clause != "OK":
             mk = (m["kind"], m["dialect"], m["opts"], "".join(sorted(set(m["v"]))))
             if mk not in mincache:
-                mincache[mk] = _minimal(m["kind"], m["v"], m["dialect"], m["opts"]) if len(mincache) < 400 else "+".join(_charname(ch) for ch in sorted(set(m["v"])))
+                mincache[mk] = _minimal(m["kind"], m["v"], m["dialect"], m["opts"]) if len(mincache) < 60000 else "+".join(_charname(ch) for ch in sorted(set(m["v"])))
             key = "pretty:sentinel" if mincache[mk] == "sentinel" else f"{m['kind']}:{m['dialect'] or 'base'}:{mincache[mk]}"
             ctx.violation(key,
                           f"{clause}: {m['kind']} value {m['v']!r} generated for {m['dialect'] or 'base'} ({m['opts']}) as {m['sql']!r} lexes back as {[(t['k'], ''.join(map(chr, t['t']))) for t in c['toks']][:6]}",
